@@ -1,9 +1,15 @@
 import ParryModel.C05.DriverBase
 import ParryModel.C05.DriverMesh
-/-! C05 protocol dispatch: primitive shapes (`DriverBase`) + composite shapes `tm_*` / `hf_*` (`DriverMesh`). -/
+import ParryModel.C05.DriverTet
+/-! C05 protocol dispatch: primitive shapes (`DriverBase`) + composite shapes `tm_*` / `hf_*` (`DriverMesh`) + the tetrahedron's default methods `tet_{proj,maxd,wproj,wdist,wcont}` (`DriverTet`). -/
 namespace C05
 def handler (fn : String) : Option Proto.Handler :=
   match meshHandler fn with
   | some h => some h
-  | none => handlerBase fn
+  | none =>
+    match (match fn with
+      | "tet_proj" => tetHandler2 "proj" | "tet_maxd" => tetHandler2 "maxd" | "tet_wproj" => tetHandler2 "wproj"
+      | "tet_wdist" => tetHandler2 "wdist" | "tet_wcont" => tetHandler2 "wcont" | _ => none) with
+    | some h => some h
+    | none => handlerBase fn
 end C05
